@@ -24,7 +24,7 @@ def main():
             continue
         from csvpath import CsvPath, CsvPaths
 
-        named = st["via"] == "paths" and st.get("named")
+        named = st["via"] == "named"
         if named:
             # the job as a named run: its file registered under ONE shared name (whatever was registered under it before),
             # its csvpath as a one-member group; the result is the member's
